@@ -29,6 +29,13 @@ class C12(SessionCheck):
                     out.append({'kind': 'e2e', 'life': True, 'sc': {'mode': 'close', 'transport': tr, 'how': how, 'inflight': infl,
                                                                      'profile': rng.choice(SG.PROFILES)}})
             out.append({'kind': 'e2e', 'life': True, 'sc': {'mode': 'close', 'transport': tr, 'how': 'with', 'no_close_reply': True}})
+            # the server REFUSES <close-session> with an rpc-error (RFC 6241 7.8 allows it): the client side is released all the same
+            if tier == 'thorough' or tr == 'unix':
+                for how in ('close_session', 'with'):
+                    out.append({'kind': 'e2e', 'life': True, 'sc': {'mode': 'close', 'transport': tr, 'how': how, 'close_error': True}})
+            # closing a session with a large backlog of notifications nobody took
+            if tier == 'thorough' or tr == 'unix':
+                out.append({'kind': 'e2e', 'life': True, 'sc': {'mode': 'close', 'transport': tr, 'how': 'close_session', 'backlog': 2500 if tier == 'quick' else 12000}})
             # closing while the worker is inside a write to a peer that no longer reads (connect timeout 3 s bounds the write)
             if tier == 'thorough' or tr != 'ssh':
                 out.append({'kind': 'e2e', 'life': True, 'sc': {'mode': 'close', 'transport': tr, 'how': 'close_session', 'blocked_writer': 24 * 1024 * 1024,
